@@ -20,13 +20,12 @@ mod proto;
 
 use dumps::{dump_nfa, event_item_tag, show_table};
 use events::*;
-use serde_json::{Value, json};
-use std::collections::{BTreeMap, BTreeSet};
+use serde_json::json;
 use surf_n_term::{
-    decoder::{Decoder, TTYEventDecoder, verif_c03, verif_c04},
+    decoder::{verif_c03, verif_c04},
     terminal::{TerminalCommand, TerminalEvent},
 };
-use verif_harness::{Cfg, r#gen::Rng, guarded, out::Out, out::hex};
+use verif_harness::{Cfg, r#gen::Rng, out::Out};
 
 /* ---------- generated table ---------- */
 
